@@ -72,22 +72,22 @@ pub open spec fn try_result<R: TryFill>(v0: R::TV, k: nat, r: Result<XorShiftRng
 }''')
     rp = 'RngCore@XorShiftRng'
     u.impl(cr, rp, header='impl Next32 for XorShiftRng', fns=['next_u32'], contracts={
-        'next_u32': Fn(None, ret='r', builtin_props='C14', trait_props='C05', ensures=[
+        'next_u32': Fn(None, ret='r', builtin_props='C14 C18', trait_props='C05', ensures=[
             C('xorshift.next_u32.out', 'C04 C05', 'r == xor128_out(%s)' % v('old(self)')),
             C('xorshift.next_u32.state', 'C04 C05 C10', '%s =~= xor128_next(%s)' % (v('final(self)'), v('old(self)')))],
             inserts=[tail('proof { assert(@0@); }', clauses=[C('xorshift.next_u32.state_words', 'C04 C05 C10', '%s =~= xor128_next(%s)' % (v('self'), v('old(self)')))])])})
     u.impl(cr, rp, header='impl Next64 for XorShiftRng', fns=['next_u64'], contracts={
-        'next_u64': Fn(None, ret='r', builtin_props='C14', trait_props='C05', ensures=[
+        'next_u64': Fn(None, ret='r', builtin_props='C14 C18', trait_props='C05', ensures=[
             C('xorshift.next_u64.via_u32', 'C05', 'r == via_u32::<Self>(%s).0' % v('old(self)')),
             C('xorshift.next_u64.two_steps', 'C05 C10', '%s =~= xor128_next(xor128_next(%s))' % (v('final(self)'), v('old(self)')))])})
-    u.impl(cr, rp, header='impl Fill for XorShiftRng', fns=['fill_bytes'], contracts={'fill_bytes': Fn(None, builtin_props='C14', trait_props='C05')})
+    u.impl(cr, rp, header='impl Fill for XorShiftRng', fns=['fill_bytes'], contracts={'fill_bytes': Fn(None, builtin_props='C14 C18', trait_props='C05')})
     sp = 'SeedableRng@XorShiftRng'
     u.impl(cr, sp, header='impl SeedableRng for XorShiftRng', keep=['type Seed'], extra='''
     open spec fn seed_bytes(s: [u8; 16]) -> Seq<u8> { s@ }
     #[verifier::external_body]
     fn seed_from_u64(x: u64) -> Self { unimplemented!() }
 ''', fns=['from_seed'], contracts={
-        'from_seed': Fn(None, ret='r', builtin_props='C14', trait_props='C08 C04',
+        'from_seed': Fn(None, ret='r', builtin_props='C14 C18', trait_props='C08 C04',
                         sig_rewrites=[(r'seed: Self::Seed', 'seed: [u8; 16]')],
                         ensures=[C('xorshift.from_seed.zero_remapped', 'C08', 'all_zero(seed@) ==> r.v() =~= bad_seed()'),
                                  C('xorshift.from_seed.verbatim_le', 'C04 C08', '!all_zero(seed@) ==> r.v() =~= words32(seed@)'),
@@ -96,7 +96,7 @@ pub open spec fn try_result<R: TryFill>(v0: R::TV, k: nat, r: Result<XorShiftRng
                                        'proof { assert(seed_u32@ =~= words32(seed@)); lemma_words32_zero(seed@); }'),
                                  before(r'XorShiftRng\s*\{\s*x:', 'proof { assert(seq![seed_u32[0], seed_u32[1], seed_u32[2], seed_u32[3]] =~= (if all_zero(seed@) { bad_seed() } else { words32(seed@) })); }')])})
     u.impl(cr, sp, header='impl FromRng for XorShiftRng', fns=['from_rng', 'try_from_rng'], contracts={
-        'from_rng': Fn(None, ret='r', builtin_props='C14', dialect=[d3_from_rng],
+        'from_rng': Fn(None, ret='r', builtin_props='C14 C18', dialect=[d3_from_rng],
                        attrs=['#[verifier::exec_allows_no_decreases_clause]'],
                        ensures=[C('xorshift.from_rng.redraw_until_nonzero', 'C08 C09',
                                   'exists |k: nat| #[trigger] from_rng_draws::<R>(old(rng).v(), k, final(rng).v()) && r.v() =~= words32(block::<R>(old(rng).v(), k))'),
@@ -110,7 +110,7 @@ pub open spec fn try_result<R: TryFill>(v0: R::TV, k: nat, r: Result<XorShiftRng
                        inserts=[after(lit('let mut b = [0u8; 16];'), 'let ghost mut k: nat = 0;'),
                                 after(lit('rng.fill_bytes(b.as_mut());'), 'proof { k = k + 1; assert(draws::<R>(old(rng).v(), k) == R::sfill(draws::<R>(old(rng).v(), (k - 1) as nat), 16).1); }'),
                                 before(r'XorShiftRng\s*\{\s*x:', 'proof { lemma_words32_16(b@); lemma_words32_zero(b@); let kk = (k - 1) as nat; assert(from_rng_draws::<R>(old(rng).v(), kk, rng.v())); }')]),
-        'try_from_rng': Fn(None, ret='r', builtin_props='C14', dialect=[d3_from_rng],
+        'try_from_rng': Fn(None, ret='r', builtin_props='C14 C18', dialect=[d3_from_rng],
                            attrs=['#[verifier::exec_allows_no_decreases_clause]'],
                            ensures=[C('xorshift.try_from_rng.ok_or_source_error', 'C08 C09',
                                       'exists |k: nat| #[trigger] try_draws::<R>(old(rng).tv(), k, final(rng).tv()) && try_result::<R>(old(rng).tv(), k, r)'),
@@ -128,12 +128,12 @@ pub open spec fn try_result<R: TryFill>(v0: R::TV, k: nat, r: Result<XorShiftRng
     })
     # derived Clone / PartialEq
     u.impl(cr, 'Clone@XorShiftRng', header='impl Clone for XorShiftRng', fns=['clone'], contracts={
-        'clone': Fn(None, ret='r', builtin_props='C14', ensures=[C('xorshift.clone.all_fields', 'C10', 'r.x == self.x && r.y == self.y && r.z == self.z && r.w == self.w')])})
+        'clone': Fn(None, ret='r', builtin_props='C14 C18', ensures=[C('xorshift.clone.all_fields', 'C10', 'r.x == self.x && r.y == self.y && r.z == self.z && r.w == self.w')])})
     u.raw('impl vstd::std_specs::cmp::PartialEqSpecImpl for XorShiftRng {\n'
           '    open spec fn obeys_eq_spec() -> bool { true }\n'
           '    open spec fn eq_spec(&self, other: &XorShiftRng) -> bool { self.x.0 == other.x.0 && self.y.0 == other.y.0 && self.z.0 == other.z.0 && self.w.0 == other.w.0 }\n}')
     u.impl(cr, 'PartialEq@XorShiftRng', header='impl PartialEq for XorShiftRng', fns=['eq'], contracts={
-        'eq': Fn(None, ret='r', builtin_props='C14', trait_props='C10', ensures=[
+        'eq': Fn(None, ret='r', builtin_props='C14 C18', trait_props='C10', ensures=[
             C('xorshift.eq.iff_all_fields', 'C10', 'r == (self.x.0 == other.x.0 && self.y.0 == other.y.0 && self.z.0 == other.z.0 && self.w.0 == other.w.0)')])})
     u.skip('Debug@XorShiftRng::fmt', 'formatting machinery; C17 is decided by Kani on the real code')
     u.skip('SeedableRng::seed_from_u64 (rand_core default, PCG32)', 'dependency code; C09 Kani harness')
